@@ -54,6 +54,13 @@ func ensureFixture(work string, o harness.Options) (string, error) {
 	if err != nil {
 		return "", err
 	}
+	// one service registered as unordered ("batch"): used as a source only - for an unordered destination the
+	// contract deliberately skips the request index check, which is outside what C02 states for ordered pairs
+	if err := w.RegisterService(harness.ChainAdmin(harness.ChainC), harness.ChainC, "s3", false, ""); err != nil {
+		w.R.Close()
+		os.RemoveAll(dir)
+		return "", err
+	}
 	w.R.Close()
 	return dir, nil
 }
@@ -93,6 +100,7 @@ func ixPairs(rng *rand.Rand) []ixPairDef {
 		{ixServices[4], harness.FullID("nochain", "s1"), false, true},          // destination chain does not exist
 		{ixServices[1], ixServices[1], true, false},                            // a service addressing itself: source and destination record are one
 		{ixServices[2], ixServices[3], true, false},                            // two services of one chain
+		{harness.FullID(harness.ChainC, "s3"), ixServices[2], true, false},     // the source is registered as unordered: its receipts are index-checked all the same
 	}
 	n := 3 + rng.Intn(4)
 	rng.Shuffle(len(all), func(i, j int) { all[i], all[j] = all[j], all[i] })
@@ -477,10 +485,15 @@ func ixcWorkload(prop string, args []string) int {
 				return
 			}
 			seenSig := map[string]bool{}
+			unordCase := prop == "C02" && id%20 == 19
 			ir := &ixRun{prop: prop, w: w, world: world, opts: opts, dir: dir, m: model.NewIx(), rng: rng, lastSt: map[string]int{}, finalH: map[string]uint64{}}
 			ir.viol = func(p, sig, detail string) {
 				if p != prop {
 					w.Count("other_property_observations:"+p, 1)
+					return
+				}
+				if unordCase {
+					w.Count("unordered_destination_observations", 1)
 					return
 				}
 				if seenSig[sig] {
@@ -490,6 +503,13 @@ func ixcWorkload(prop string, args []string) int {
 				w.Violation(sig, detail, map[string]interface{}{"blocks": ir.blocks, "no_audit": opts.NoAudit})
 			}
 			pairs := ixPairs(rng)
+			// C02 only, every 20th case: the single pair whose DESTINATION is the service registered as unordered.
+			// For such a destination the interchain contract skips the request index check by design ("batch"
+			// services); C02 is stated for ordered pairs, so what the oracle sees there is counted as an
+			// observation and decides nothing (DESIGN.md 9.3) - the case still runs under the race detector
+			if unordCase {
+				pairs = []ixPairDef{{ixServices[0], harness.FullID(harness.ChainC, "s3"), true, false}}
+			}
 			nBlocks := 25 + rng.Intn(15)
 			shape := map[string]bool{}
 			for b := 0; b < nBlocks; b++ {
